@@ -438,6 +438,44 @@ def _obligation_witness(ctx, proof_broken):
     return w
 
 
+def _locate_hash_diff(p):
+    """p = ['fthash', y, thr, bits] or ['ftdhash', y, z, thr, bits]: first entry where the real table differs from the
+    documented encoding; None if the real table agrees with the spec on the entries where it differs from the model"""
+    dump_op = ("ft " if p[0] == "fthash" else "ftd ") + " ".join(p[1:])
+    try:
+        exe = core.ensure_harness("rel")
+        rc, impl, err, _ = core.run_harness(exe, dump_op + "\n", timeout=900, env={"PCV_OP_TIMEOUT": "600"})
+        rc2, model, err2, _ = core.run_model(dump_op + "\n", timeout=1800)
+    except Exception:
+        return None
+    if not impl or not model:
+        return None
+    a, b = impl[0].split(), model[0].split()
+    bits = p[-1]
+    diffs = [i for i in range(1, min(len(a), len(b))) if a[i] != b[i]][:2000]
+    if not diffs:
+        return None
+    ns = [to_number(i - 1) for i in diffs]
+    if p[0] == "fthash":
+        q = "ftspecat %s %s" % (bits, " ".join(map(str, ns)))
+    else:
+        q = "ftdspecat %s %s %s" % (p[1], bits, " ".join(map(str, ns)))
+    _, spec, _, _ = core.run_model(q + "\n", timeout=600)
+    if not spec:
+        return None
+    sv = spec[0].split()
+    for i, n, e in zip(diffs, ns, sv):
+        if a[i] != e:
+            if p[0] == "fthash":
+                call = "FactorTable<uint%s_t>(%s, %s).mu_lpf(%d)" % (bits, p[1], p[2], i - 1)
+            else:
+                call = "FactorTableD<uint%s_t>(y=%s, z=%s, %s).is_leaf(%d)" % (bits, p[1], p[2], p[3], i - 1)
+            return dict(failing_input="%s  (n=%d)" % (call, n), n=n, index=i - 1, observed=a[i], expected=e,
+                        differing_entries_at_least=len(diffs),
+                        replay_hint="echo '%s' | <cache>/rel/pcharness | cut -d' ' -f%d ; echo '%s' | pcdrv" % (dump_op, i + 1, q.split()[0] + " ... " + str(n)))
+    return None
+
+
 def search(ctx, proof_broken, bad, dis):
     rest = []
     reported = set()
@@ -476,6 +514,17 @@ def search(ctx, proof_broken, bad, dis):
                                         broken=None if d["oracle"] else "correspondence stream " + d["stream"],
                                         y=y, n=n, index=idx, observed=fd[1], expected=fd[2], op=op, stream=d["stream"], key=cls,
                                         replay_hint="echo '%s' | <cache>/rel/pcharness | cut -d' ' -f%d" % (op, idx + 2)))
+                continue
+        if p and p[0] in ("fthash", "ftdhash") and not d.get("crash") and not d.get("model_crash") and "fthash-loc" not in reported:
+            # a table too large for the spec stream differs from the mirror model: dump both, take the first differing
+            # entry and judge THAT entry with the documented encoding (ftspecat / ftdspecat)
+            w = _locate_hash_diff(p)
+            if w is not None:
+                reported.add("fthash-loc")
+                emit_violation(ctx, "correspondence",
+                               "stream %s: %s returns %s, the documented encoding (spec) says %s" % (
+                                   d["stream"], w["failing_input"], w["observed"], w["expected"]),
+                               dict(op=op, stream=d["stream"], key="fthash:" + op.replace(" ", "_"), **w))
                 continue
         if p and p[0] == "pit" and d.get("oracle") and not d.get("crash") and not d.get("model_crash"):
             fd = _first_diff(d["impl"], d["model"])
